@@ -87,6 +87,16 @@ class Ctx:
                 self.specs.update(sc.specs)
                 self.module_consts.update(sc.consts)
                 self.global_types.update(sc.global_types)
+        tags_path = os.path.join(contract_dir, "tags.py")
+        if os.path.exists(tags_path):
+            env = {}
+            exec(compile(open(tags_path).read(), tags_path, "exec"), env)
+            for k, extra in env.get("ALSO", {}).items():
+                c = self.contracts.get(k)
+                if c is None:
+                    raise RuntimeError("contracts/tags.py names an unknown contract %r" % k)
+                c.props = sorted(set(c.props) | set(extra))
+                c.d["props"] = c.props
         self.axioms = T.base_axioms() + lib.axioms()
         self.extra_axioms = []
         self.solver = None
@@ -184,6 +194,16 @@ class Ctx:
         finally:
             s.pop()
         return r != z3.unsat
+
+    def proves(self, goal, timeout_ms=1500):
+        """goal follows from the axioms alone (free constants arbitrary)"""
+        s = self._solver()
+        s.push()
+        try:
+            s.add(z3.Not(goal))
+            return s.check() == z3.unsat
+        finally:
+            s.pop()
 
     def _solver(self):
         if self.solver is None:
